@@ -717,6 +717,15 @@ EvalNode(m, n) ==
            IF loc = 0 THEN Throw(m, "RuntimeError", n) ELSE Val(m, m.store[loc])
     [] k \in {"un", "bin", "and", "or", "tern", "assign", "prop", "propset", "propop", "index", "indexset", "indexop", "interp"} ->
          Ev(PushK(m, Frame(k, n, 1, <<>>, m.env)), Kid(n, 1))
+    [] k = "superget" ->
+         \* super.name as a value: the method visible from the lexically enclosing class's parent, bound to self
+         LET cl == Lookup(m, m.env, "$class")
+             sl == Lookup(m, m.env, "self")
+         IN IF cl = 0 \/ sl = 0 THEN Throw(m, "RuntimeError", n)
+            ELSE LET meth == FindMethod(m, m.heap[m.store[cl].n].cls, nd.s) IN
+                   IF meth.t = "nil" THEN Throw(m, "PropertyError", n)
+                   ELSE LET m1 == Alloc(m, Obj("bound", nd.s, <<m.store[sl], meth>>, 0, 0, 0, <<>>, <<>>, <<>>))
+                        IN Val(m1, R(LastObj(m1), "bound"))
     [] k = "opassign" ->
          \* name op= e : the variable is read before e is evaluated
          LET loc == Lookup(m, m.env, nd.s) IN
